@@ -32,13 +32,14 @@ rationals).  Helper lemmas: `Lemmas/{Dist,Isi,VP}.lean`.
    `|n − m| ≤ d ≤ n + m`, equality at cost 0 and cost ∞, and the triangle inequality, for every
    cost in `[0, ∞]`.
 
-## What is NOT proved (outside the installed Mathlib; explored numerically only — see the
-`FULL STATEMENT (unproved, outside installed Mathlib)` comments below and
-`numeric_only_subclaims` in the evidence)
-* Normal / LogNormal: `cdf x = ∫_{−∞}^{x} pdf`  (Mathlib has no `erf`);
-* Poisson: `cdf k = Σ_{j ≤ k} pmf j`  (no regularised incomplete gamma function);
-* LogNormal: `∫ pdf = 1`, `∫ x·pdf = mean`, `∫ (x − mean)²·pdf = variance`
-  (no ready-made change of variables for `log`).
+## Proved in `Props/C20Int.lean` (the integral / partial-sum sub-claims, about `realSpecial`:
+`erf z = 2/√π ∫₀ᶻ e^{−t²}`, `gammaincc a x = (∫_x^∞ t^{a−1}e^{−t}) / Γ a`)
+* Normal / LogNormal: `cdf x = ∫_{−∞}^{x} pdf` (`Normal.cdf_eq_integral`, `LogNormal.cdf_eq_integral`);
+* Poisson: `cdf k = Σ_{j ≤ k} pmf j` (`Poisson.cdf_eq_sum`);
+* LogNormal: `∫ pdf = 1`, `∫ x·pdf = mean`, `∫ (x − mean)²·pdf = variance` with integrability
+  (`LogNormal.integral_pdf`, `integral_mean`, `integral_variance`).
+That torch's `special.erf` / `special.gammaincc` compute these functions is an assumption, checked
+numerically on every run (`integral_subclaims_run_on_real_code` in the evidence).
 -/
 
 /-! # 1. Interpolation / extrapolation -/
@@ -281,11 +282,10 @@ theorem Normal.params_mv_variance (m : ℝ) {v : ℝ} (hv : 0 ≤ v) :
   simp only [Normal.variance, Normal.params_mv, pow2, sqrt]
   exact Real.sq_sqrt hv
 
--- FULL STATEMENT (unproved, outside installed Mathlib): the CDF is the integral of the density
+-- FULL STATEMENT (proved in Props/C20Int.lean): the CDF is the integral of the density
 --   theorem Normal.cdf_eq_integral (x μ : ℝ) {σ : ℝ} (hσ : 0 < σ) :
 --       Normal.cdf realSpecial x μ σ = ∫ t in Set.Iic x, Normal.pdf t μ σ
--- (needs `erf z = 2/√π ∫₀ᶻ e^{−t²}` with its limit at ∞ and an affine change of variables;
---  explored numerically only: sub-claim `Normal.cdf=∫pdf`.)
+-- (also run numerically on the real code: sub-claim `Normal.cdf=∫pdf`.)
 
 /-! ## Poisson -/
 
@@ -336,11 +336,10 @@ theorem Poisson.variance_hasSum {r : ℝ} (hr : 0 < r) :
 theorem Poisson.logcdf_eq (S : Special) (k r : ℝ) :
     Poisson.logcdf S k r = Real.log (Poisson.cdf S k r) := rfl
 
--- FULL STATEMENT (unproved, outside installed Mathlib): the CDF is the partial sum of the pmf
+-- FULL STATEMENT (proved in Props/C20Int.lean): the CDF is the partial sum of the pmf
 --   theorem Poisson.cdf_eq_sum (k : ℕ) {r : ℝ} (hr : 0 < r) :
 --       Poisson.cdf realSpecial (k : ℝ) r = ∑ j ∈ Finset.range (k + 1), Poisson.pmf realSpecial (j : ℝ) r
--- (needs `Γ(k+1, r) / Γ(k+1) = e^{−r} Σ_{j ≤ k} r^j / j!`; Mathlib has no incomplete gamma function;
---  explored numerically only: sub-claim `Poisson.cdf=Σpmf`.)
+-- (also run numerically on the real code: sub-claim `Poisson.cdf=Σpmf`.)
 
 /-! ## LogNormal -/
 
@@ -410,7 +409,7 @@ theorem LogNormal.params_mv_mean_fails_neg :
   have := Real.exp_pos ((LogNormal.params_mv (-1) 0).1 + pow2 (LogNormal.params_mv (-1) 0).2 / 2)
   linarith
 
--- FULL STATEMENT (unproved, outside installed Mathlib): LogNormal CDF and moments by integration
+-- FULL STATEMENT (proved in Props/C20Int.lean): LogNormal CDF and moments by integration
 --   theorem LogNormal.cdf_eq_integral {x : ℝ} (hx : 0 < x) (μ : ℝ) {σ : ℝ} (hσ : 0 < σ) :
 --       LogNormal.cdf realSpecial x μ σ = ∫ t in Set.Ioc 0 x, LogNormal.pdf t μ σ
 --   theorem LogNormal.integral_pdf (μ : ℝ) {σ : ℝ} (hσ : 0 < σ) :
@@ -420,7 +419,7 @@ theorem LogNormal.params_mv_mean_fails_neg :
 --   theorem LogNormal.integral_variance (μ : ℝ) {σ : ℝ} (hσ : 0 < σ) :
 --       ∫ x in Set.Ioi 0, (x - LogNormal.mean μ σ) ^ 2 * LogNormal.pdf x μ σ
 --         = LogNormal.variance realSpecial μ σ
--- (need `erf` and the substitution `x = eᵘ` under the integral; explored numerically only:
+-- (also run numerically on the real code:
 --  sub-claims `LogNormal.cdf=∫pdf`, `LogNormal.∫pdf=1`, `LogNormal.mean=∫x·pdf`,
 --  `LogNormal.variance=∫(x−mean)²·pdf`.)
 
